@@ -161,10 +161,10 @@ def Prim.isEmpty : Prim → Bool
   | .u32 l => l.isEmpty | .i64 l => l.isEmpty | .u64 l => l.isEmpty | .f32 l => l.isEmpty
   | .f64 l => l.isEmpty | .tags l => l.isEmpty | .dates l => l.isEmpty
 
-/-- `PrimitiveValue::truncate` -/
+/-- `PrimitiveValue::truncate` (a single string is one item: fix 65d0025) -/
 def Prim.truncate (n : Nat) : Prim → Prim
   | .empty => .empty
-  | .str s => .str s
+  | .str s => if n = 0 then .empty else .str s
   | .strs l => .strs (l.take n) | .u8 l => .u8 (l.take n) | .i16 l => .i16 (l.take n)
   | .u16 l => .u16 (l.take n) | .i32 l => .i32 (l.take n) | .u32 l => .u32 (l.take n)
   | .i64 l => .i64 (l.take n) | .u64 l => .u64 (l.take n) | .f32 l => .f32 (l.take n)
@@ -273,6 +273,12 @@ def Val.truncate (n : Nat) : Val → Val
   | .seq items => .seq (items.take n)
   | .pix bot frags => .pix bot (frags.take n)
 
+/-- the VR after `SetVr(nvr)`: data set sequences and pixel data fragment sequences keep theirs
+(repaired behaviour, finding C13 `sequence-under-non-sq-vr`; the code as found took `nvr` always) -/
+def setVrOf (nvr vr : VR) : Val → VR
+  | .prim _ => nvr
+  | _ => vr
+
 /-- `apply_push_*_impl`: remove the entry, extend, re-insert — or restore it and fail -/
 def pushImpl (dict : Nat → Option VR) (o : Obj) (tag : Nat) (ext : Prim → Option Prim)
     (fresh : Prim) (fallback : VR) : Obj × Option Err :=
@@ -298,7 +304,7 @@ def applyLeaf (dict : Nat → Option VR) (o : Obj) (tag : Nat) (a : Action) : Ob
      | none => o, none)
   | .setVr nvr =>
     (match o.get tag with
-     | some (_, v) => (o.erase tag).set tag nvr v
+     | some (vr, v) => (o.erase tag).set tag (setVrOf nvr vr v) v
      | none => o.set tag nvr (emptyValue nvr), none)
   | .set p => (changeValue dict o tag p, none)
   | .setStr s => (changeValue dict o tag (.str s), none)
@@ -329,7 +335,7 @@ def apply (dict : Nat → Option VR) (o : Obj) (steps : List (Nat × Nat)) (tag 
         if a.constructive then
           let vr := (dict t).getD .UN
           if vr ≠ .SQ ∧ vr ≠ .UN then .error .notASequence
-          else .ok (o.set t vr (.seq .nil))
+          else .ok (o.set t .SQ (.seq .nil))
         else .error .missingSequence
     match created with
     | .error e => (o, some e)
@@ -376,9 +382,9 @@ def leafSpec (dict : Nat → Option VR) (tag : Nat) (cur : Option (VR × Val)) (
   match a with
   | .remove => (none, none)                                   -- "Remove the attribute if it exists"
   | .empty => (cur.map fun (vr, _) => (vr, emptyValue vr), none) -- "clear its value to zero bytes"
-  | .setVr nvr =>                                             -- "The underlying value is not modified"
+  | .setVr nvr =>                 -- "The underlying value is not modified"; ignored where it cannot be done
     (match cur with
-     | some (_, v) => some (nvr, v)
+     | some (vr, v) => some (setVrOf nvr vr v, v)
      | none => some (nvr, emptyValue nvr), none)
   | .set p => (reset p, none)
   | .setStr s => (reset (.str s), none)
@@ -412,8 +418,8 @@ def applySpec (dict : Nat → Option VR) (o : Obj) (steps : List (Nat × Nat)) (
         if vr ≠ .SQ ∧ vr ≠ .UN then (o, some .notASequence)
         else if i = 0 then
           let r := applySpec dict .nil rest tag a
-          (o.set t vr (.seq (.cons r.1 .nil)), r.2)
-        else (o.set t vr (.seq .nil), some .missingSequence)
+          (o.set t .SQ (.seq (.cons r.1 .nil)), r.2)
+        else (o.set t .SQ (.seq .nil), some .missingSequence)
       else (o, some .missingSequence)               -- "fail without side effects"
     | some (vr, .seq items) =>
       if items.length = i ∧ a.constructive then
@@ -427,13 +433,22 @@ def applySpec (dict : Nat → Option VR) (o : Obj) (steps : List (Nat × Nat)) (
          | none => (o, some .missingSequence))
     | some _ => (o, some .notASequence)
 
-/-! ### well-formedness: strictly ascending tags at every level -/
+/-! ### well-formedness: strictly ascending tags and writable sequence headers at every level -/
+
+/-- a data set sequence is held under VR SQ, pixel data fragments under VR OB: what
+`DataToken::from(header)` needs in order to emit the matching start token (the data set writer
+panics otherwise) -/
+def vrOk (vr : VR) : Val → Bool
+  | .prim _ => true
+  | .seq _ => vr == .SQ
+  | .pix _ _ => vr == .OB
 
 mutual
-  /-- every tag of the map is above `lo`, ascending, and all nested items are well formed -/
+  /-- every tag of the map is above `lo`, ascending, sequence values sit under their VR, and all
+  nested items are well formed -/
   def Obj.wfFrom : Obj → Nat → Bool
     | .nil, _ => true
-    | .cons t _ v r, lo => decide (lo ≤ t) && Val.wf v && Obj.wfFrom r (t + 1)
+    | .cons t vr v r, lo => decide (lo ≤ t) && (vrOk vr v && Val.wf v) && Obj.wfFrom r (t + 1)
   def Val.wf : Val → Bool
     | .prim _ => true
     | .seq items => Items.wf items
